@@ -365,9 +365,28 @@ ADDENDA = {
     "C20": (" The pricer / target configuration used inside the calibration objective (n, l, spot, r, d, strike, maturity, payoff; Black-Scholes target "
             "arguments) is measured on the running code and generated obligations re-check that it is the user's default pricer configuration and "
             "the requested target (calibrate_reprices_target, with a negation witness for mismatching configurations).", "", ""),
-    "C02": (" n-d INVERSION chains in d = 3 with the factory's Rosenberg-Strong pairing.", "", ""),
-    "C09": (" Nested truncations and a second construction history of every model (parameter object constructed elsewhere, then edited to the target).", "", ""),
+    "C02": (" n-d INVERSION chains in d = 3, 4 with the factory's Rosenberg-Strong pairing, judged against an enumeration that does not depend on "
+            "the sampler's own bound; lattice oracle.", " One further recorded finding (cap reset with skipped indices in d >= 3).", ""),
+    "C09": (" Nested truncations, a second construction history of every model (parameter object constructed elsewhere, then edited to the target) "
+            "and parameter regimes at extreme ratios with end points at the features of the density. Source-derived tie: the HEM closed forms "
+            "(integrate, integrate_against_x, integrate_against_xx) are translated from /repo's source on every run (np.exp as a function "
+            "parameter) and proved, for every exp, to be the linear combination of exponentials that the model returns as a term list - the "
+            "list whose real instance is proved equal to the integral of x^k times the density.",
+            " One further recorded finding (the quad fallback misses a narrow Merton peak for n >= 3).",
+            " + source-derived definitions (PyLite translator) re-proved on every run"),
     "C01": (" Chains built on models that were truncated before, judged against the input model's own measure.", "", ""),
+    "C03": (" Source-derived tie: CouplingSimulation.probability_to_right_jump is translated from /repo's source on every run (the grid seen "
+            "through its public operations, the mass as a function parameter) and proved equal to the model's pRight, to split the mass of the "
+            "fine cell exactly between the two adjacent coarse cells and to be a probability.", "",
+            " + source-derived definitions (PyLite translator) re-proved on every run"),
+    "C05": (" Oracle independent of the model: every reported statistic of the results object (N_l, ml, vl, mean / variance per level, kurtosis, "
+            "cl, cost, price), read once and read again later, equals the exact statistic of the stored samples; fast-decay regime where the "
+            "engine's floor for levels >= 3 bites.", "", ""),
+    "C06": (" Sequences of pricings in one interpreter (default-argument objects, configurations / engines reused or new), each sequence in a "
+            "forked child that priced nothing before.", "", ""),
+    "C08": (" The tracer finds the stores of pre-drawn variates by value (independent of the container the library uses), with a degraded mode "
+            "listed in the evidence; multi-date products, a container-independent counting oracle and an exact dependence test across dates.",
+            " One further recorded finding (multilevel x jump-time x several dates raises).", ""),
 }
 
 NOT_YET = "check not built yet in this session (planned: DESIGN.md §4); not claimed until its Lean model, theorems and correspondence exist"
